@@ -150,10 +150,23 @@ let cfg t : string =
   done;
   cat (List.rev !out)
 
+(* ---- session publisher ---- *)
+let zk t : string =
+  let conn0 = next_int t = 1 in
+  let evs = next_list t (fun t -> let typ = next t in let st = next t in (typ, st)) in
+  let s = ref (init_state conn0 (groups_of_list [])) in
+  let out = List.map (fun (typ, st) ->
+    let zst = match st with "exp" -> ZkExpired | "con" -> ZkConnected | _ -> ZkOtherState in
+    let mevs = zk_session (typ = "s") zst !s.conn in
+    s := fst (feed (step_s (zs "0")) !s mevs);
+    (if !s.conn then "1" else "0") ^ (if List.mem Expired mevs then "b" else "-")) evs in
+  cat out
+
 let run (line : string) : string =
   let t = toks_of_line line in
   match next t with
   | "loop" -> loop t
   | "pace" -> pace t
   | "cfg" -> cfg t
+  | "zk" -> zk t
   | k -> failwith ("drv_evalloop: unknown case kind " ^ k)
